@@ -615,11 +615,21 @@ STATIC = list(globals().get("STATIC", [])) + list(STEAL_STATIC)
 _c02 = {}
 exec(compile(open("/verif/specs/C02/spec.py").read(), "/verif/specs/C02/spec.py", "exec"), _c02)
 for _u in _c02["UNITS"]:
-    if _u.name in ("sts.set_thread_state", "sts.set_active_state", "agent.do_yield", "agent.do_resume"):
+    # timed.suspend_until (added after seeded change C10-7 was missed): this_thread::suspend / yield_to hand a "next thread" of ANOTHER
+    # scheduler to that thread's own scheduler (never to the caller's: it would run on a worker of the wrong pool)
+    if _u.name in ("sts.set_thread_state", "sts.set_active_state", "agent.do_yield", "agent.do_resume", "timed.suspend_until"):
         _u.name = "c02." + _u.name
         _u.template = "../C02/" + _u.template
         UNITS.append(_u)
-META["trusted_base"] = list(META.get("trusted_base", [])) + ["units c02.* are the C02 units of the same name (specs/C02/sts.c, c02.h) with their trusted base"]
+_c13 = {}
+exec(compile(open("/verif/specs/C13/spec.py").read(), "/verif/specs/C13/spec.py", "exec"), _c13)
+for _u in _c13["UNITS"]:
+    if _u.name == "hlp.suspend":     # the untimed overload of the same function (same obligation: g_sch_ok)
+        _u.name = "c13." + _u.name
+        _u.template = "../C13/" + _u.template
+        UNITS.append(_u)
+META["trusted_base"] = list(META.get("trusted_base", [])) + ["units c02.* are the C02 units of the same name (specs/C02/sts.c, c02.h, timed_suspend.c) with their trusted base",
+    "unit c13.hlp.suspend is the C13 unit of the same name (specs/C13/suspend.c) with its trusted base"]
 
 
 # ---- the scheduler travels with the sender (added by main after seeded change C10-6 was missed) ----
